@@ -79,10 +79,10 @@ def cyclic_flow_decomp_guessed_weights_finds_fewer_walks(violation, spec):
 
 @predicate
 def isolated_node_one_node_routes_dropped(violation, spec):
-    """An error model (k-min-path-error / k-least-absolute-errors, DAG or cyclic) on an edge-weighted graph that has an
-    isolated node, returning fewer than k routes."""
+    """One of the models whose get_solution() removes "empty" routes by default (k-min-path-error / k-least-absolute-errors,
+    DAG or cyclic, and kFlowDecompCycles) on an edge-weighted graph that has an isolated node, returning fewer than k routes."""
     w = spec.get("world", {})
-    if w.get("class") not in ("kMinPathError", "kLeastAbsErrors", "kMinPathErrorCycles", "kLeastAbsErrorsCycles"):
+    if w.get("class") not in ("kMinPathError", "kLeastAbsErrors", "kMinPathErrorCycles", "kLeastAbsErrorsCycles", "kFlowDecompCycles"):
         return False
     if w.get("args", {}).get("flow_attr_origin") == "node":
         return False
